@@ -227,15 +227,69 @@ calls the constructors of the parents selected by `called` (in the order of the 
 the own properties in order, and that a parent is skipped only if it has no property at all. Before the second
 `fix:` commit the statement failed for every diamond (`a` assigned twice in `D(B, C), B(A), C(A)`). -/
 
-/-- `A` with `self.a = a` written twice (known finding C05-F1). -/
+/-- `A` with `self.a = a` written twice (former known finding C05-F1: it was accepted and both assignments were
+kept in the in-lined constructors). -/
 def twiceAssigned : List ParsedClass :=
   [ ⟨[65], [], false, [[97]], [], [], [[97]], [.assign [97], .assign [97]], none⟩ ]
 
-/-- "Every accepted model assigns every property exactly once" is false without a hypothesis on the constructor
-source: a repeated own assignment is accepted and kept. -/
-theorem ctor_exactly_once_full_fails :
-    (match translate twiceAssigned with | .ok _ => true | _ => false) = true
-    ∧ ¬ ((inlineAll twiceAssigned [65]).map (·.target)).Nodup := by decide
+/-- The repaired front end refuses it while understanding the constructor
+("The property a is assigned more than once"). -/
+theorem twiceAssigned_rejected :
+    (match translate twiceAssigned with | .err stage => stage == "construction" | _ => false) = true := by decide
+
+/-- **No accepted constructor assigns an own property twice** (the repair of C05-F1, for every hierarchy): in an
+accepted model the assignments written in the constructor of a class have pairwise different targets, all of
+them own properties and arguments of that constructor.  Together with the de-duplication of the inherited
+statements by identity (`inlineOne`), a repetition in an in-lined constructor can no longer be copied from the
+source. -/
+theorem ctor_source_assigns_once {o : Out} (hacc : translate cs = .ok o) (c : ParsedClass) (hc : c ∈ cs) :
+    (ownAssigns c).Nodup ∧ ∀ x ∈ ownAssigns c, x ∈ c.ownProps ∧ x ∈ c.args := by
+  have h := (accepted_output hacc).2.constructionOk
+  unfold constructionErrors at h
+  have hcls := (List.any_eq_false.mp h) c hc
+  simp only [Bool.or_eq_true, not_or, Bool.not_eq_true, decide_eq_false_iff_not, Decidable.not_not] at hcls
+  refine ⟨hcls.2, ?_⟩
+  intro x hx
+  unfold ownAssigns at hx
+  simp only [List.mem_filterMap] at hx
+  obtain ⟨s, hs, hsx⟩ := hx
+  cases s with
+  | callSuper p => simp [Stmt.assigned] at hsx
+  | assign y =>
+    simp only [Stmt.assigned, Option.some.injEq] at hsx
+    subst hsx
+    have := (List.any_eq_false.mp hcls.1) _ hs
+    simpa using this
+
+/-- The own statements of an in-lined constructor are these assignments: the part of `inlineOne` which does not
+come from a super-constructor has exactly the targets `ownAssigns c` (so, in an accepted model, no repetition). -/
+theorem inlined_own_targets (st : Name → List InlStmt) (c : ParsedClass)
+    (hnone : ∀ p, Stmt.callSuper p ∉ c.ctor) :
+    (inlineOne st c).map (·.target) = ownAssigns c := by
+  rw [inlineOne_eq]
+  unfold ownAssigns
+  have key : ∀ (l : List (Stmt × Nat)) (acc : List InlStmt),
+      (∀ si ∈ l, ∀ p, si.1 ≠ Stmt.callSuper p) →
+      (l.foldl (inlStep st c.name) acc).map (·.target)
+      = acc.map (·.target) ++ (l.map (·.1)).filterMap Stmt.assigned := by
+    intro l
+    induction l with
+    | nil => intro acc _; simp
+    | cons si l ih =>
+      intro acc hl
+      simp only [List.foldl_cons, List.map_cons]
+      rw [ih _ (fun sj hsj => hl sj (List.mem_cons_of_mem _ hsj))]
+      unfold inlStep
+      cases hsi : si.1 with
+      | callSuper p => exact absurd hsi (hl si List.mem_cons_self p)
+      | assign x => simp [Stmt.assigned]
+  have := key c.ctor.zipIdx [] (by
+    intro si hsi p hp
+    have hm := List.mem_zipIdx hsi
+    apply hnone p
+    rw [← hp, hm.2.2]
+    exact List.getElem_mem _)
+  simpa [List.zipIdx_map_fst] using this
 
 /-- **In-lined constructor** (`_partial`: canonical constructors): exactly the stacked properties, each assigned once, in the order of the properties. -/
 theorem ctor_inlined {called : Name → Bool} (hu : UniqueNames cs) (hp : ParentsExist cs) (ha : Acyclic cs)
